@@ -31,11 +31,12 @@ Definition ph_ok (t : nat) (stream : bool) (dd : Prop) (p : phase) (r : resp) (r
         | S _ => exists rb, rest = tag t (map SBody rb ++ [STerm]) /\ length rb = n
         end))
   | PStreamIdent _ => stream = true /\ h_fr (r_head r) = FIdent
+  | PStreamBroken => stream = true
   | PAcq | PHead => False
   end.
 
 Lemma ph_ok_mono t stream (dd dd' : Prop) p r rest : (dd -> dd') -> ph_ok t stream dd p r rest -> ph_ok t stream dd' p r rest.
-Proof. destruct p as [ | | | | | | | |[|n] e| ]; cbn; intuition. Qed.
+Proof. destruct p as [ | | | | | | | |[|n] e| | ]; cbn; intuition. Qed.
 
 Lemma tag_app t a b : tag t (a ++ b) = tag t a ++ tag t b.
 Proof. apply map_app. Qed.
@@ -92,7 +93,7 @@ Lemma rd_body_ok t max skip stream dd p r tg sy rest :
   | RFail _ => True
   end.
 Proof.
-  intros H Hs. destruct p as [ | |n|cnt|cnt n|cnt| |n e|n e|e]; cbn in H, Hs; try discriminate; try contradiction.
+  intros H Hs. destruct p as [ | |n|cnt|cnt n|cnt| |n e|n e|e| ]; cbn in H, Hs; try discriminate; try contradiction.
   - destruct H as [Hn Hl]. cbn in Hl. cbn [rd_sym]. destruct n as [|[|l]]; [congruence| |].
     + destruct rest; [auto|discriminate].
     + cbn. split; [discriminate|]. lia.
@@ -219,7 +220,7 @@ Proof.
   pose proof (pend_set_inb _ _ _ Hinb) as Hpend. fold k1 in Hpend.
   assert (Hfail : forall e, e <> OOk -> Inv (set_thr s t (TDone x1 e false))).
   { intros e He. apply inv_set_thr0; [exact HI|]. destruct e; try exact I. congruence. }
-  destruct p as [ | |n|cnt|cnt n|cnt| |n e|n e|e]; try discriminate; try congruence.
+  destruct p as [ | |n|cnt|cnt n|cnt| |n e|n e|e| ]; try discriminate; try congruence.
   - (* PHead *)
     destruct Ht as [Hgot [[Hout Hq]|[Hout [r (Ha & Hwf & Heq)]]]].
     { destruct Hq as [Hq _]. congruence. }
@@ -254,7 +255,7 @@ Proof.
     destruct (rd_sym _ _ _ _ _) as [p1|body|e] eqn:Hrd.
     + apply inv_set_thr0; [exact HI|]. cbn. split; [exact Hsafe|].
       apply (ph_ok_mono _ _ _ (dead k1)) in Hb; [|intros Hd; exfalso; eapply not_dead_inb; eauto].
-      destruct p1 as [ | | | | | | | |[|?] ?| ]; cbn in Hb; try contradiction; (split; [exact Hout|]); exists r; (split; [exact Hans1|]); (split; [exact Hh|]); (split; [exact Hnw|]); exact Hb.
+      destruct p1 as [ | | | | | | | |[|?] ?| | ]; cbn in Hb; try contradiction; (split; [exact Hout|]); exists r; (split; [exact Hans1|]); (split; [exact Hh|]); (split; [exact Hnw|]); exact Hb.
     + destruct Hb as [Hnil ->]. apply finish_inv with (r := r); auto.
     + apply Hfail. eapply rd_sym_fail_not_ok; eauto.
   - (* PChunkSize *)
@@ -265,7 +266,7 @@ Proof.
     destruct (rd_sym _ _ _ _ _) as [p1|body|e] eqn:Hrd.
     + apply inv_set_thr0; [exact HI|]. cbn. split; [exact Hsafe|].
       apply (ph_ok_mono _ _ _ (dead k1)) in Hb; [|intros Hd; exfalso; eapply not_dead_inb; eauto].
-      destruct p1 as [ | | | | | | | |[|?] ?| ]; cbn in Hb; try contradiction; (split; [exact Hout|]); exists r; (split; [exact Hans1|]); (split; [exact Hh|]); (split; [exact Hnw|]); exact Hb.
+      destruct p1 as [ | | | | | | | |[|?] ?| | ]; cbn in Hb; try contradiction; (split; [exact Hout|]); exists r; (split; [exact Hans1|]); (split; [exact Hh|]); (split; [exact Hnw|]); exact Hb.
     + destruct Hb as [Hnil ->]. apply finish_inv with (r := r); auto.
     + apply Hfail. eapply rd_sym_fail_not_ok; eauto.
   - (* PChunkData *)
@@ -276,7 +277,7 @@ Proof.
     destruct (rd_sym _ _ _ _ _) as [p1|body|e] eqn:Hrd.
     + apply inv_set_thr0; [exact HI|]. cbn. split; [exact Hsafe|].
       apply (ph_ok_mono _ _ _ (dead k1)) in Hb; [|intros Hd; exfalso; eapply not_dead_inb; eauto].
-      destruct p1 as [ | | | | | | | |[|?] ?| ]; cbn in Hb; try contradiction; (split; [exact Hout|]); exists r; (split; [exact Hans1|]); (split; [exact Hh|]); (split; [exact Hnw|]); exact Hb.
+      destruct p1 as [ | | | | | | | |[|?] ?| | ]; cbn in Hb; try contradiction; (split; [exact Hout|]); exists r; (split; [exact Hans1|]); (split; [exact Hh|]); (split; [exact Hnw|]); exact Hb.
     + destruct Hb as [Hnil ->]. apply finish_inv with (r := r); auto.
     + apply Hfail. eapply rd_sym_fail_not_ok; eauto.
   - (* PBodyIdent *)
@@ -287,7 +288,7 @@ Proof.
     destruct (rd_sym _ _ _ _ _) as [p1|body|e] eqn:Hrd.
     + apply inv_set_thr0; [exact HI|]. cbn. split; [exact Hsafe|].
       apply (ph_ok_mono _ _ _ (dead k1)) in Hb; [|intros Hd; exfalso; eapply not_dead_inb; eauto].
-      destruct p1 as [ | | | | | | | |[|?] ?| ]; cbn in Hb; try contradiction; (split; [exact Hout|]); exists r; (split; [exact Hans1|]); (split; [exact Hh|]); (split; [exact Hnw|]); exact Hb.
+      destruct p1 as [ | | | | | | | |[|?] ?| | ]; cbn in Hb; try contradiction; (split; [exact Hout|]); exists r; (split; [exact Hans1|]); (split; [exact Hh|]); (split; [exact Hnw|]); exact Hb.
     + destruct Hb as [Hnil ->]. apply finish_inv with (r := r); auto.
     + apply Hfail. eapply rd_sym_fail_not_ok; eauto.
 Qed.
@@ -301,6 +302,7 @@ Proof.
   destruct p; rewrite ?Ho, ?Hp.
   - destruct H as [[H1 H2] H3]. split; [split; [congruence|auto]|exact H3].
   - destruct H as [Hg [[H1 H2]|H]]; (split; [exact Hg|]); [left; split; [congruence|auto]|right; exact H].
+  - destruct H as [H1 [r (Ha & Hh & Hn & Hph)]]. split; [exact H1|]. exists r. repeat (split; [assumption|]). eapply ph_ok_mono; eauto.
   - destruct H as [H1 [r (Ha & Hh & Hn & Hph)]]. split; [exact H1|]. exists r. repeat (split; [assumption|]). eapply ph_ok_mono; eauto.
   - destruct H as [H1 [r (Ha & Hh & Hn & Hph)]]. split; [exact H1|]. exists r. repeat (split; [assumption|]). eapply ph_ok_mono; eauto.
   - destruct H as [H1 [r (Ha & Hh & Hn & Hph)]]. split; [exact H1|]. exists r. repeat (split; [assumption|]). eapply ph_ok_mono; eauto.
@@ -338,6 +340,7 @@ Proof.
   - destruct H as [H _]. contradiction.
   - destruct H as [H _]. contradiction.
   - destruct H as [H _]. contradiction.
+  - destruct H as [H _]. contradiction.
 Qed.
 
 Lemma stream_phase_facts ans t x p k :
@@ -355,7 +358,7 @@ Proof. destruct l; [reflexivity|discriminate]. Qed.
 
 Lemma step_inv s l s1 : Inv s -> step s l = Some s1 -> Inv s1.
 Proof.
-  intros HI Hstep. pose proof I as Hsafe. destruct l as [t o from|t reset|t e|t|t|t|t|t werr|l r|l|l|i]; cbn [step] in Hstep.
+  intros HI Hstep. pose proof I as Hsafe. destruct l as [t o from|t reset|t e|t|t|t|t|t|t werr|l r|l|l|i]; cbn [step] in Hstep.
   - (* LAcquire *)
     destruct (s_thr s t) eqn:Hth; try discriminate.
     destruct from as [i|].
@@ -389,7 +392,7 @@ Proof.
     destruct (c_inb k) as [|[tg sy] rest] eqn:Hinb; [discriminate|].
     destruct (stream_sym p sy) as [p1|] eqn:Hss; [|discriminate]. injection Hstep as <-.
     pose proof (proj2 HI t) as Ht. rewrite Hth in Ht.
-    assert (Hsp : is_stream_phase p = true) by (destruct p as [ | | | | | | |? [|]|[|?] [|]|[|]]; cbn in Hss; try discriminate; reflexivity).
+    assert (Hsp : is_stream_phase p = true) by (destruct p as [ | | | | | | |? [|]|[|?] [|]|[|]| ]; cbn in Hss; try discriminate; reflexivity).
     destruct (stream_phase_facts _ _ _ _ _ Ht Hsp) as (Hs & Ho & r & (Ha & Hwf & Heq) & Hh & Hn & Hph).
     pose proof (pend_set_inb _ _ _ Hinb) as Hpend. rewrite Hpend in Hph, Heq.
     set (k1 := set_inb k rest) in *.
@@ -400,36 +403,42 @@ Proof.
     { intros Hp1. split; [exact Hs|].
       destruct p1; cbn in Hp1; try contradiction; (split; [exact Ho|]); exists r; (split; [exact Hans1|]); (split; [exact Hh|]); (split; [exact Hn|]); exact Hp1. }
     apply Hgoal. clear Hgoal.
-    destruct p as [ | | | | | | |n [|]|m [|]|[|]]; try discriminate.
-    + cbn in Hss. destruct Hph as (Hst & Hl & _). cbn in Hl. destruct n as [|[|n]]; try discriminate; injection Hss as <-; cbn.
+    destruct p as [ | | | | | | |n [|]|[|m] [|]|[|]| ]; cbn in Hss; try discriminate.
+    + destruct Hph as (Hst & Hl & _). cbn in Hl. destruct n as [|[|n]]; try discriminate; injection Hss as <-; cbn.
       * split; [exact Hst|]. split; [lia|auto].
       * split; [exact Hst|]. split; [lia|discriminate].
     + destruct Hph as (Hst & [[Hnil _]|[_ Hrb]]); [discriminate|].
+      destruct Hrb as [rb Hrb]. destruct rb as [|b rb]; cbn in Hrb; injection Hrb as Htg Hsy Hrest; subst sy; cbn in Hss;
+        injection Hss as <-; cbn; (split; [exact Hst|]).
+      * left. split; [exact Hrest|reflexivity].
+      * right. split; [discriminate|]. exists (b :: rb). split; [exact Hrest|reflexivity].
+    + destruct Hph as (Hst & [[Hnil _]|[_ Hrb]]); [discriminate|].
+      destruct Hrb as (rb & Hrb & Hl). destruct rb as [|b rb]; [discriminate|]. cbn in Hrb. injection Hrb as Htg Hsy Hrest.
+      injection Hss as <-. cbn in Hl. cbn. split; [exact Hst|]. right. split; [discriminate|].
       destruct m as [|m].
-      * destruct Hrb as [rb Hrb]. destruct rb as [|b rb]; cbn in Hrb; injection Hrb as Htg Hsy Hrest; subst sy; cbn in Hss;
-          injection Hss as <-; cbn; (split; [exact Hst|]).
-        -- left. split; [exact Hrest|reflexivity].
-        -- right. split; [discriminate|]. exists (b :: rb). split; [exact Hrest|reflexivity].
-      * destruct Hrb as (rb & Hrb & Hl). destruct rb as [|b rb]; [discriminate|]. cbn in Hrb. injection Hrb as Htg Hsy Hrest.
-        cbn in Hss. injection Hss as <-. cbn in Hl. cbn. split; [exact Hst|]. right. split; [discriminate|].
-        destruct m as [|m].
-        -- destruct rb; [|discriminate]. exists []. exact Hrest.
-        -- exists rb. split; [exact Hrest|lia].
-    + cbn in Hss. injection Hss as <-. exact Hph.
+      * destruct rb; [|discriminate]. exists []. exact Hrest.
+      * exists rb. split; [exact Hrest|lia].
+    + injection Hss as <-. exact Hph.
   - (* LStreamEof *)
     destruct (s_thr s t) as [|x p k|] eqn:Hth; try discriminate.
     destruct (c_inb k) eqn:Hinb; [|discriminate]. destruct (stream_eof p) as [p1|] eqn:Hse; [|discriminate].
     destruct (c_srvclosed k) eqn:Hc; [|discriminate]. injection Hstep as <-.
     pose proof (proj2 HI t) as Ht. rewrite Hth in Ht.
     assert (Hd : dead k) by (split; assumption).
-    assert (Hsp : is_stream_phase p = true) by (destruct p as [ | | | | | | |? [|]|[|?] [|]|[|]]; cbn in Hse; try discriminate; reflexivity).
+    assert (Hsp : is_stream_phase p = true) by (destruct p as [ | | | | | | |? [|]|[|?] [|]|[|]| ]; cbn in Hse; try discriminate; reflexivity).
     destruct (stream_phase_facts _ _ _ _ _ Ht Hsp) as (Hs & Ho & r & Hans & Hh & Hn & Hph).
     apply inv_set_thr0; [exact HI|]. split; [exact Hs|].
-    destruct p as [ | | | | | | |n [|]|[|m] [|]|[|]]; cbn in Hse; try discriminate; injection Hse as <-;
+    destruct p as [ | | | | | | |n [|]|[|m] [|]|[|]| ]; cbn in Hse; try discriminate; injection Hse as <-;
       (split; [exact Ho|]); exists r; (split; [exact Hans|]); (split; [exact Hh|]); (split; [exact Hn|]); cbn in Hph |- *.
     + destruct Hph as (Hst & Hl & _). auto.
     + destruct Hph as (Hst & [[_ He]|[_ Hrb]]); [discriminate|]. split; [exact Hst|]. right. auto.
     + exact Hph.
+  - (* LStreamErr *)
+    destruct (s_thr s t) as [|x p k|] eqn:Hth; try discriminate. destruct p as [ | | | | | | | |[|?] [|]| | ]; try discriminate.
+    injection Hstep as <-. pose proof (proj2 HI t) as Ht. rewrite Hth in Ht.
+    destruct (stream_phase_facts _ _ _ _ _ Ht eq_refl) as (Hs & Ho & r & Hans & Hh & Hn & Hph).
+    apply inv_set_thr0; [exact HI|]. split; [exact Hs|]. split; [exact Ho|]. exists r.
+    split; [exact Hans|]. split; [exact Hh|]. split; [exact Hn|]. cbn. apply Hph.
   - (* LCloseStream *)
     destruct (s_thr s t) as [|x p k|] eqn:Hth; try discriminate.
     destruct (is_stream_phase p) eqn:Hsp; [|discriminate].
@@ -443,7 +452,7 @@ Proof.
     + apply inv_set_thr; [exact HI| |apply Hdone].
       intros k' [<-|Hin]; [|apply HI; exact Hin]. split; [exact Ho|].
       apply orb_false_elim in Hc as [Hc Hu]. apply orb_false_elim in Hc as [Hcc _].
-      destruct p as [ | | | | | | |n e|m e|e]; try discriminate; cbn in Hph, Hu.
+      destruct p as [ | | | | | | |n e|m e|e| ]; try discriminate; cbn in Hph, Hu.
       * apply quiet_of_pend. apply Hph.
       * destruct e; [|discriminate]. destruct Hph as (_ & Hl & He). destruct (He eq_refl) as [->|Hd].
         -- apply quiet_of_pend, length_zero_nil, Hl.
@@ -711,7 +720,7 @@ Proof.
         cbn in H1. injection H1 as H1. peq_split; auto. intros a Ha. apply H4. right. exact Ha. }
     destruct (rd_sym 0 (p_skip it) false p sy) as [p1|body|e] eqn:Hrd; injection Hstep as <-.
     + (* RMore *)
-      pose proof Hrd as Hrd0. destruct p as [ | |n|cnt|cnt n|cnt| |n e0|n e0|e0]; cbn in Hrd; try discriminate.
+      pose proof Hrd as Hrd0. destruct p as [ | |n|cnt|cnt n|cnt| |n e0|n e0|e0| ]; cbn in Hrd; try discriminate.
       * destruct H5 as [-> H5]. rewrite Hpend in H5.
         destruct A as [|[it' r] A']; [discriminate|]. cbn in H1. injection H1 as -> H1.
         rewrite wires_cons in H5. unfold wire_of at 1 in H5. cbn [fst snd] in H5. rewrite twire_cons in H5. cbn [app] in H5.
@@ -746,7 +755,7 @@ Proof.
         destruct (H4 (it, r) (or_introl eq_refl)) as (_ & Hdl & _). cbn in Hdl, Hph.
         apply delimited_not_ident in Hdl. apply Hdl, Hph.
     + (* RDone *)
-      pose proof Hrd as Hrd0. destruct p as [ | |n|cnt|cnt n|cnt| |n e0|n e0|e0]; cbn in Hrd; try discriminate.
+      pose proof Hrd as Hrd0. destruct p as [ | |n|cnt|cnt n|cnt| |n e0|n e0|e0| ]; cbn in Hrd; try discriminate.
       * destruct H5 as [-> H5]. rewrite Hpend in H5.
         destruct A as [|[it' r] A']; [discriminate|]. cbn in H1. injection H1 as -> H1.
         rewrite wires_cons in H5. unfold wire_of at 1 in H5. cbn [fst snd] in H5. rewrite twire_cons in H5. cbn [app] in H5.
